@@ -36,7 +36,7 @@ ASSUMPTIONS = [
     "unpack_group must return the same elements; their order is not judged.",
 ]
 MIN_NONTRIVIAL = {'quick': 6000, 'thorough': 150000}
-REQUIRED_MONITORS = ['filter', 'filter_errors', 'filter_duplicates',
+REQUIRED_MONITORS = ['filter', 'filter_errors', 'filter_errors:PLSSDesc', 'filter_duplicates',
                      'group_by', 'group_by_nested', 'construct',
                      'contract:_new_list_from_self',
                      'contract:_verify_iterable', 'invariant:TractList',
@@ -278,7 +278,14 @@ def check_filter(case, els, lst, ctx, pytrs):
     elif op == 'filter_errors':
         ctx.hit('filter_errors')
         kw = case['kw']
-        res = lst.filter_errors(drop=drop, **kw)
+        if kind == 'tract' and len(els) % 2:
+            # the same through a description holding these tracts
+            ctx.hit('filter_errors:PLSSDesc')
+            holder = pytrs.PLSSDesc('foo')
+            holder.tracts = lst
+            res = holder.filter_errors(drop=drop, **kw)
+        else:
+            res = lst.filter_errors(drop=drop, **kw)
         model = model_errors(els, kw['twp'], kw['rge'], kw['sec'], kw['undef'])
     else:
         ctx.hit('filter_duplicates')
